@@ -1,7 +1,7 @@
 #!/bin/bash
 # runs the thorough tier of every registered check, one after the other; prints one line per check
 cd "$(dirname "$0")/.."
-for p in $(jq -r 'keys[]' checks.json); do
+for p in ${@:-$(jq -r "keys[]" checks.json)}; do
   start=$(date +%s)
   out=$(./run.sh check $p thorough 2>&1 | grep -a "VIOLATION\|KNOWN-FINDING\|driver:\|oracle=" | cut -c1-400)
   echo "== $p ($(( $(date +%s) - start ))s)"; echo "$out"
